@@ -232,9 +232,13 @@ class Printer:
                     if it.macro:
                         # same helper, but written so that Rally's textual pre-assembly does not apply and the Jinja macro runs
                         # (without blanks inside the braces - pre-assembled all the same since 851d1bd - or with the other kind of string quotes Jinja knows)
-                        if len(self.files) % 2:
+                        # or with blanks around the keyword argument, as a code formatter for Jinja would write it)
+                        if len(self.files) % 3 == 1:
                             out.append("%s  {{ rally.collect(parts='%s/*.json') }}%s" % (pad, it.dirname, sep))
                             self.single_quoted_collect = True
+                        elif len(self.files) % 3 == 2:
+                            out.append('%s  {{ rally.collect( parts = "%s/*.json" ) }}%s' % (pad, it.dirname, sep))
+                            self.blanks_in_collect_call = True
                         else:
                             out.append('%s  {{rally.collect(parts="%s/*.json")}}%s' % (pad, it.dirname, sep))
                     elif i > 0 and isinstance(node[i - 1], Coll) and not node[i - 1].macro:
